@@ -15,6 +15,10 @@ S2 = ["none", "canary", "cross", "repeat", "manual"]
 SEL = ["positive", "negative", "anergic", "insufficient"]
 VCODE = {"output_length": 1, "response_time": 2, "confidence": 3, "error_rate": 4,
          "vocabulary_hash": 5, "structure_hash": 6, "canary_accuracy": 7, "recalled": 9}
+VNAME = {c: n for n, c in VCODE.items() if c != 9}     # violation code -> the word a violation string starts with
+# read-only / no-effect calls of the public API that are interleaved with the operations of a history; they
+# are NOT shown to the model: everything observed after them must be what it is without them
+ACCESSORS = ("health", "stats", "profile", "record", "export", "peptide", "state", "ghost", "bystander")
 TABLE_ACTION = {0: 0, 1: 1, 2: 2, 3: 3}          # level -> action the T cell pairs with it
 FEATS = ("ol", "rt", "cf")
 
@@ -120,7 +124,8 @@ def pep_obs(p):
 
 API_OPS = ("w_record", "w_canary", "w_inspect", "w_train", "flag",
            # public maintenance API of ImmuneMemory / the watcher, as an operator would call it
-           "store", "import", "pruneold", "advance", "touch", "clearmem", "forget", "reset", "resetnc")
+           "store", "import", "pruneold", "advance", "touch", "clearmem", "forget", "reset", "resetnc",
+           "markupd", "tolerate", "touchp", "acc")
 
 
 def exact_trained_bounds(pep, tol):
@@ -223,11 +228,22 @@ class C17(Check):
             "3..10 that saturate, alternating good/bad stretches, inspections with and without a canary result in between; "
             "memory maintenance interleaved with inspections (store at capacities 0..3 and 1000, import_signatures of exported "
             "feeds, prune_old against a virtual clock, clock advances, recall/touch, del/clear of signatures), incl. the motif "
-            "threat remembered -> handled -> aged out / displaced -> seen once more. "
+            "threat remembered -> handled -> aged out / displaced -> seen once more; "
+            "the tolerance record: mark_agent_updated, add_tolerated_violation and rules whose condition reads the record "
+            "(rec.recent_update, as in the shipped tests; a violation listed in rec.tolerated_violations), rules with and "
+            "without a duration; partial recall (memory.recall(partial=True)) over signatures that carry violation types; "
+            "in 45% of the histories 1..5 read-only / no-effect public calls are interleaved that the model never sees "
+            "(health(), memory.stats(), export_signatures(), thymus.get_profile, treg.get_record + recent_update/is_stable, "
+            "display.generate_peptide, T-cell state, every entry point with an unregistered agent id, a steadily behaving "
+            "second registered agent that is trained, inspected, flagged and marked updated): every later observation must "
+            "be what it is without them, and a change of the agent's state by one of them is itself shown as a row the model "
+            "cannot produce; ImmuneSystem() with every default (window 100, 10 observations, capacity 1000) driven until the "
+            "default window saturates; one history that fills the default memory capacity of 1000. "
             "Exhaustive: every history of <=3 (quick) / <=4 (thorough) operations over an 8-letter alphabet with thresholds "
             "2/1, and every public-API history of <=5 / <=7 calls (good obs, bad obs, inspect, flag) on a window of size 2 "
             "after training, and every sequence of <=4 / <=5 maintenance operations between a remembered threat and its "
-            "reappearance. non-trivial = at least one "
+            "reappearance, and every sequence of <=3 / <=4 of mark_agent_updated, add_tolerated_violation, flag, two anomalies "
+            "under a recent_update rule (max CRITICAL) and a tolerated-violation rule. non-trivial = at least one "
             "inspection with a fingerprint that reaches the baseline check; distinct by case content")
     LEVEL_TEXT = ("Coq theorems over all profiles, fingerprints, thresholds, rule sets (arbitrary condition functions), "
                   "memories and operation histories about a hand-written model of BaselineProfile.check, TCell, "
@@ -263,7 +279,15 @@ class C17(Check):
         "recall/touch and direct list edits are modelled; the clock memory.py reads is rebound to a virtual clock and the "
         "ThreatSignature name used by ImmuneSystem.inspect to a constructor that passes created_at/last_accessed explicitly "
         "(their default_factory is bound to the wall clock at import); from_dict leaves last_accessed on the wall clock, "
-        "modelled as later than every virtual time in import order; recall_count and violation_types are not modelled",
+        "modelled as later than every virtual time in import order; violation_types are modelled as violation codes "
+        "(first word of the violation string); recall_count is not modelled",
+        "ToleranceRecord.recent_update reads the wall clock (treg.py is not rebound): modelled as 'mark_updated was called', "
+        "i.e. the default update_tolerance_duration of one hour does not elapse within a case; SuppressionRule.duration is "
+        "varied and, as in the code, has no effect",
+        "read-only accessors and calls about other agents are not model operations; their transparency is checked on the "
+        "implementation (state of the agent, its display, the shared memory and configuration before/after) and through "
+        "the correspondence of every later observation; exceptions they raise are counted in input_distribution "
+        "(health()/memory.stats() raise ZeroDivisionError when capacity == 0) and are outside the property",
     ]
     ASSUMPTIONS = [
         "profile bounds and fingerprint features are finite, non-NaN doubles",
@@ -466,17 +490,21 @@ class C17(Check):
         out = []
         for _ in range(rng.choice([0, 0, 1, 1, 2, 3])):
             k = rng.random()
-            if k < 0.4:
+            if k < 0.32:
                 c = ["const", rng.random() < 0.7]
-            elif k < 0.6:
+            elif k < 0.47:
                 c = ["level", rng.randint(0, 3)]
-            elif k < 0.75:
+            elif k < 0.59:
                 c = ["clean", rng.choice([0, 1, 2, 5])]
-            elif k < 0.9:
+            elif k < 0.71:
                 c = ["action", rng.randint(0, 3)]
-            else:
+            elif k < 0.79:
                 c = ["viol", rng.choice([1, 2, 3])]
-            out.append([rng.choice([0, 1, 2, 2, 2, 3, 3]), c])
+            elif k < 0.92:
+                c = ["recent", 0]          # the shipped example: lambda resp, rec: rec.recent_update
+            else:
+                c = ["tolerated", 0]       # some violation of the response is in rec.tolerated_violations
+            out.append([rng.choice([0, 1, 2, 2, 2, 3, 3]), c] + ([rng.choice([0, 1, 3600])] if rng.random() < 0.25 else []))
         return out
 
     def _maintenance(self, rng, hashes=None):
@@ -484,20 +512,44 @@ class C17(Check):
         def other():
             vh, sh = (rng.choice([1, 2, 7, 9]), rng.choice([1, 2, 8, 9])) if hashes is None or rng.random() < 0.7 else hashes
             return [rng.choice([0, 0, 1]), vh, sh, rng.choice([2, 3, 2, 1]), rng.choice([0, 1, 2, 3])]
+
+        def types():           # violation_types of a signature from outside (optional last component)
+            return [rng.choice([[2], [1, 2], [4, 5], [7], [3, 6], []])] if rng.random() < 0.5 else []
         k = rng.random()
         if k < 0.2:
             return ["advance", rng.choice([1, 10, 100, 3600])]
-        if k < 0.45:
+        if k < 0.43:
             return ["pruneold", rng.choice([0, 0, 5, 50, 1000, -5])]
-        if k < 0.6:
-            return ["store", other()]
-        if k < 0.8:
-            return ["import", [other() + [rng.choice([0, 0, 50, 500, 5000])] for _ in range(rng.choice([1, 1, 2, 3]))]]
-        if k < 0.88:
+        if k < 0.58:
+            return ["store", other() + types()]
+        if k < 0.76:
+            return ["import", [other() + [rng.choice([0, 0, 50, 500, 5000])] + types() for _ in range(rng.choice([1, 1, 2, 3]))]]
+        if k < 0.82:
             return ["touch", other()[:3]]
+        if k < 0.88:           # memory.recall(query, partial=True): same agent, a common violation type
+            return ["touchp", [rng.choice([0, 0, 1]), rng.choice([[2], [1, 2], [2, 4], [5, 6, 7], [1, 2, 3, 4, 5, 6, 7], []])]]
         if k < 0.94:
             return ["forget", rng.choice([0, 0, 1, 2])]
         return ["clearmem"]
+
+    @staticmethod
+    def _record_op(rng):
+        """mark_agent_updated / ToleranceRecord.add_tolerated_violation"""
+        return ["markupd"] if rng.random() < 0.6 else ["tolerate", rng.choice([1, 2, 2, 3, 4, 5, 6, 7])]
+
+    def _sprinkle(self, rng, case):
+        """interleave read-only accessor calls (and, in API-level histories, record operations) with the history"""
+        ops = list(case["ops"])
+        if rng.random() < 0.45:
+            for _ in range(rng.choice([1, 2, 3, 5])):
+                ops.insert(rng.randint(0, len(ops)), ["acc", rng.choice(ACCESSORS)])
+        if any(o[0].startswith("w_") for o in ops) and rng.random() < 0.35:
+            for _ in range(rng.choice([1, 1, 2])):
+                # after training (the first inspection comes right after it: keep that pair together)
+                i = next((k for k, o in enumerate(ops) if o[0] == "w_inspect"), len(ops) - 1) + 1
+                ops.insert(rng.randint(min(i, len(ops)), len(ops)), self._record_op(rng))
+        case["ops"] = ops
+        return case
 
     def _history(self, rng, prof, rep, anergy, tol):
         ops = []
@@ -508,6 +560,9 @@ class C17(Check):
             k = rng.random()
             if rng.random() < 0.12:
                 ops.append(self._maintenance(rng))
+                continue
+            if rng.random() < 0.06:
+                ops.append(self._record_op(rng))
                 continue
             if trained is None and cur_prof is not None and rng.random() < 0.1:
                 # a threat is confirmed and remembered, handled, aged out / displaced by maintenance, then seen once more
@@ -655,15 +710,48 @@ class C17(Check):
                 "n": rng.choice([10, 3, 1]), "tmin": None, "tol": 2.0, "vt": 0.5, "win": [minobs, size], "ops": ops,
                 "cap": rng.choice([1000, 1000, 2, 1])}
 
+    def _default_case(self, rng):
+        """ImmuneSystem() exactly as shipped (window 100, min 10 observations, 10 training samples, capacity 1000),
+        driven through the public API until the default window saturates"""
+        ops = []
+
+        def good(k):
+            for _ in range(k):
+                ops.append(["w_record", rng.choice(self.GOOD), rng.choice([0.5, 0.5, 0.25]), rng.choice([0.875, 0.875, 0.75]), None])
+
+        def bad(k):
+            for _ in range(k):
+                ops.append(["w_record", rng.choice(self.BAD), rng.choice([4.0, 8.0]), rng.choice([0.125, 0.25]), rng.choice(["boom", None])])
+
+        good(rng.choice([9, 10, 60, 100, 130]))
+        if rng.random() < 0.3:
+            ops.append(["w_canary", True])
+        ops += [["w_train"], ["w_inspect"]]
+        for _ in range(rng.choice([1, 2])):
+            bad(rng.choice([1, 5, 40, 100]))
+            if rng.random() < 0.5:
+                ops.append(["flag", True])
+            for _ in range(rng.choice([1, 3, 4])):
+                ops.append(["w_inspect"])
+            if rng.random() < 0.3:
+                ops.append(["reset"])
+            good(rng.choice([99, 100, 101]))          # the bad stretch has (just not / just) left the window of 100
+            ops.append(["w_inspect"])
+        return {"rules": self._rules(rng) if rng.random() < 0.5 else [], "stab": 100, "tcell": None, "record": True,
+                "n": 10, "tmin": None, "tol": 2.0, "vt": 0.5, "win": [10, 100], "cap": 1000, "defaults": True, "ops": ops}
+
     def gen_cases(self, rng, n):
         out = []
         for _ in range(n):
             k = rng.random()
+            if k < 0.015:
+                out.append(self._sprinkle(rng, self._default_case(rng)))
+                continue
             if k < 0.12:
-                out.append(self._api_case(rng))
+                out.append(self._sprinkle(rng, self._api_case(rng)))
                 continue
             if k < 0.2:
-                out.append(self._window_case(rng))
+                out.append(self._sprinkle(rng, self._window_case(rng)))
                 continue
             prof = rng.choice(self.PROFILES[:4] + self.PROFILES) if rng.random() < 0.93 else None
             rep = rng.choice([3, 3, 2, 1, 2, 0, 4])
@@ -677,7 +765,7 @@ class C17(Check):
                     "tol": tol, "vt": rng.choice([0.5, 0.5, 0.0, -1.0] if rng.random() < 0.2 else [0.5, 0.0]),
                     "win": [3, 6], "cap": rng.choice([1000, 1000, 1000, 1, 2, 3, 0])}
             case["ops"] = self._history(rng, prof, rep, anergy, tol)
-            out.append(case)
+            out.append(self._sprinkle(rng, case))
         return out
 
     def exhaustive_cases(self):
@@ -718,6 +806,23 @@ class C17(Check):
                     out.append({"rules": [], "stab": 100, "tcell": {"prof": prof, "rep": 3, "anergy": 5}, "record": True, "n": 10,
                                 "tmin": None, "tol": 2.0, "vt": 0.5, "win": [3, 6], "cap": cap,
                                 "ops": [["flag", True], ["inspect", one], ["reset"]] + [list(o) for o in combo]})
+        # the tolerance record: every sequence of mark_agent_updated / tolerated violation / flag / anomalies
+        # under rules that read the record
+        letters = [["markupd"], ["tolerate", 2], ["flag", True], ["inspect", one], ["inspect", three], ["acc", "record"]]
+        for n in range(1, (4 if self.tier == "quick" else 5)):
+            for combo in itertools.product(letters, repeat=n):
+                if combo[-1][0] != "inspect":
+                    continue
+                out.append({"rules": [[3, ["recent", 0]], [2, ["tolerated", 0], 3600]], "stab": 100,
+                            "tcell": {"prof": prof, "rep": 2, "anergy": 1}, "record": True, "n": 10, "tmin": None, "tol": 2.0,
+                            "vt": 0.5, "win": [3, 6], "ops": [list(o) for o in combo]})
+        # the shipped memory capacity (1000) is reached: one old signature, a feed of 999, then a confirmed threat
+        # is stored at capacity (the least recently accessed goes) and recalled
+        feed = [[1, 100 + i, 100 + i, 2, 2, i % 7] + ([[1 + i % 7]] if i % 3 == 0 else []) for i in range(999)]
+        out.append({"rules": [], "stab": 100, "tcell": {"prof": prof, "rep": 3, "anergy": 5}, "record": True, "n": 10,
+                    "tmin": None, "tol": 2.0, "vt": 0.5, "win": [3, 6], "cap": 1000,
+                    "ops": [["store", [0, 7, 7, 2, 2, [2]]], ["advance", 10], ["import", feed], ["acc", "health"], ["flag", True],
+                            ["inspect", one], ["acc", "stats"], ["reset"], ["inspect", one]]})
         return out
 
     # ------------------------------------------------------------------
@@ -751,6 +856,8 @@ class C17(Check):
             elif o[0] == "w_clear":
                 allobs, canaries = [], []
                 aops.append(("clear",))
+            elif o[0] == "acc":
+                continue
             elif o[0] in ("w_inspect", "w_train"):
                 window = allobs[-size:] if size > 0 else []
                 p = ref_fingerprint([ob for _, ob in window], canaries, minobs)
@@ -855,15 +962,30 @@ class C17(Check):
                 return lambda r, rec: rec.clean_inspections >= arg
             if kind == "action":
                 return lambda r, rec: r.action == ac[arg]
+            if kind == "recent":
+                return lambda r, rec: rec.recent_update
+            if kind == "tolerated":
+                return lambda r, rec: any(v.split()[0] in rec.tolerated_violations for v in r.violations)
             return lambda r, rec: len(r.violations) >= arg
 
-        rules = [SuppressionRule(name=f"r{i}", condition=cond(c), max_severity=lv[mx])
-                 for i, (mx, c) in enumerate(case["rules"])]
-        immune = ImmuneSystem(min_training_samples=case["n"], min_observations=case["win"][0],
-                              window_size=case["win"][1],
-                              thymus=Thymus(tolerance=case["tol"], variance_threshold=case["vt"]),
-                              treg=RegulatoryTCell(rules=rules, stability_threshold=case["stab"]),
-                              memory=ImmuneMemory(capacity=case.get("cap", 1000)))
+        # a rule's optional third component is SuppressionRule.duration in seconds (None when absent)
+        rules = [SuppressionRule(name=f"r{i}", condition=cond(r[1]), max_severity=lv[r[0]],
+                                 **({"duration": timedelta(seconds=r[2])} if len(r) > 2 else {}))
+                 for i, r in enumerate(case["rules"])]
+        if case.get("defaults"):
+            # everything at its default: ImmuneSystem() with no argument (window 100, 10 observations, 10 samples,
+            # tolerance 2.0, stability 100, capacity 1000); rules are added to the public rule list
+            immune = ImmuneSystem()
+            immune.treg.rules.extend(rules)
+            assert (case["n"], case["win"], case["tol"], case["vt"], case["stab"], case.get("cap", 1000), case.get("tmin")) == \
+                (immune.min_training_samples, [immune.min_observations, immune.window_size], immune.thymus.tolerance,
+                 immune.thymus.variance_threshold, immune.treg.stability_threshold, immune.memory.capacity, None), "defaults moved"
+        else:
+            immune = ImmuneSystem(min_training_samples=case["n"], min_observations=case["win"][0],
+                                  window_size=case["win"][1],
+                                  thymus=Thymus(tolerance=case["tol"], variance_threshold=case["vt"]),
+                                  treg=RegulatoryTCell(rules=rules, stability_threshold=case["stab"]),
+                                  memory=ImmuneMemory(capacity=case.get("cap", 1000)))
         if case.get("tmin") is not None:
             immune.thymus.min_training_samples = case["tmin"]
         immune.register_agent(AID)
@@ -907,7 +1029,8 @@ class C17(Check):
             if r is None:
                 return [0, 0, 0, 0, 0]
             reason = r.suppression_reason
-            rc = -1 if reason is None else (-2 if reason == "stable_agent" else int(reason[1:]))
+            rc = -1 if reason is None else (-2 if reason == "stable_agent" else (
+                int(reason[1:]) if reason[:1] == "r" and reason[1:].isdigit() else -3))      # -3: a reason the code does not have
             return [1, int(bool(r.suppressed)), ac.index(r.original_action), ac.index(r.modified_action), rc]
 
         def vcodes(vs):
@@ -921,7 +1044,8 @@ class C17(Check):
         def mem_list():
             return [[0 if s.agent_id == AID else 1, self._hid(s.vocabulary_hash, intern), self._hid(s.structure_hash, intern),
                      lv.index(s.threat_level), ac.index(s.effective_response), clock.secs(s.created_at),
-                     clock.secs(s.last_accessed)] for s in immune.memory.signatures]
+                     clock.secs(s.last_accessed), len(s.violation_types)] + [VCODE.get(v, 98) for v in s.violation_types]
+                    for s in immune.memory.signatures]
 
         def state_obs():
             t = immune.tcells.get(AID)
@@ -931,7 +1055,11 @@ class C17(Check):
                 o = [1, t.anomaly_count, t.anergy_count, int(bool(t.manual_flag)), s1.index(t.state.signal1),
                      s2.index(t.state.signal2), int(bool(t.is_anergic))]
             rec = immune.treg.records.get(AID)
-            o += [-1, -1] if rec is None else [rec.clean_inspections, rec.total_inspections]
+            if rec is None:
+                o += [-1, -1, -1, -1]
+            else:
+                tv = sorted(VCODE.get(v, 98) for v in rec.tolerated_violations)
+                o += [rec.clean_inspections, rec.total_inspections, int(bool(rec.recent_update)), len(tv)] + tv
             m = mem_list()
             o.append(clock.t)
             o.append(len(m))
@@ -947,7 +1075,78 @@ class C17(Check):
                          manual=bool(t.manual_flag), impl_anergic=bool(t.is_anergic), tid=id(t))
             return b
 
+        def sig_from(ag, vh, sh, l, a, types=(), **kw):
+            return ThreatSignature(agent_id=AID if ag == 0 else "b", vocabulary_hash=hstr(vh), structure_hash=hstr(sh),
+                                   violation_types=tuple(VNAME[c] for c in types), threat_level=lv[l],
+                                   effective_response=ac[a], **kw)
+
+        def full_state():
+            t = immune.tcells.get(AID)
+            return (state_obs(), None if t is None else (snap_prof(t.profile), t.repeated_anomaly_threshold, t.anergy_threshold),
+                    [(ob.output, ob.response_time, ob.confidence, ob.error) for ob in real_disp.observations],
+                    list(real_disp.canary_results), AID in immune.displays, AID in immune.tcells, AID in immune.treg.records,
+                    immune.memory.capacity, immune.thymus.min_training_samples, immune.thymus.tolerance,
+                    immune.treg.stability_threshold, len(immune.treg.rules))
+
+        def accessor(kind):
+            """a read-only / no-effect call of the public API -> names of the exceptions it raised"""
+            import contextlib
+            import io
+            raised = []
+
+            def call(fn, expect=()):
+                try:
+                    with contextlib.redirect_stdout(io.StringIO()):
+                        fn()
+                except expect:
+                    pass
+                except Exception as e:
+                    raised.append(type(e).__name__)
+            rec = immune.treg.get_record(AID)
+            t = immune.tcells.get(AID)
+            if kind == "health":
+                call(lambda: json.dumps(immune.health()))
+            elif kind == "stats":
+                call(lambda: json.dumps(immune.memory.stats()))
+            elif kind == "profile":
+                call(lambda: (immune.thymus.get_profile(AID), immune.thymus.get_profile("ghost"), immune.profiles.get(AID)))
+            elif kind == "record":
+                if rec is not None:
+                    call(lambda: (rec.recent_update, rec.is_stable(immune.treg.stability_threshold), rec.is_stable(0)))
+                call(lambda: immune.treg.get_record("ghost"))
+            elif kind == "export":
+                call(lambda: json.dumps(immune.memory.export_signatures()))
+            elif kind == "peptide":
+                call(lambda: real_gen())
+            elif kind == "state":
+                if t is not None:
+                    call(lambda: (t.is_anergic, t.state.is_activated, t.state.signal1, t.state.signal2, t.manual_flag))
+            elif kind == "ghost":
+                # calls about an agent that was never registered: refused (ValueError) or ignored
+                call(lambda: immune.record_observation("ghost", output="x", response_time=0.5, confidence=0.5), ValueError)
+                call(lambda: immune.record_canary_result("ghost", True), ValueError)
+                call(lambda: immune.train_agent("ghost"), ValueError)
+                call(lambda: immune.inspect("ghost"), ValueError)
+                call(lambda: immune.flag_agent("ghost", "x"))
+                call(lambda: immune.mark_agent_updated("ghost"))
+            elif kind == "bystander":
+                # another agent under the same ImmuneSystem behaving steadily: registered on first use, one more
+                # (identical) observation, trained once, inspected (its own window: clean), flagged
+                if case["tol"] >= 0:
+                    if "c" not in immune.displays:
+                        call(lambda: immune.register_agent("c"))
+                    call(lambda: immune.record_observation("c", output="steady reply", response_time=0.5, confidence=0.875))
+                    if "c" not in immune.tcells:
+                        call(lambda: immune.train_agent("c"), statistics.StatisticsError)
+                    call(lambda: immune.inspect("c"), ValueError)
+                    call(lambda: immune.flag_agent("c", "looks odd"))
+                    call(lambda: immune.mark_agent_updated("c"))
+            else:
+                raise ValueError(f"unknown accessor {kind}")
+            return raised
+
         obs, trace = [], []
+        acc_log = []           # (accessor, exceptions raised, state changed?)
         mi = 0
         cut = None
         exact_prof = None          # exact-arithmetic bounds of the watcher's profile when it came from train_agent
@@ -961,6 +1160,11 @@ class C17(Check):
                 continue
             if kind == "w_clear":
                 real_disp.clear()
+                continue
+            if kind == "acc":
+                s0 = full_state()
+                raised = accessor(o[1])
+                acc_log.append((o[1], raised, full_state() != s0))
                 continue
             mo = mops[mi]
             if (mo[0] == "inspect" and mo[1] is not None and exact_prof is not None and AID in immune.tcells
@@ -1017,10 +1221,7 @@ class C17(Check):
                     immune.tcells[AID].reset_without_confirmation()
                 row = [4]
             elif mo[0] == "store":
-                ag, vh, sh, l, a = mo[1]
-                immune.memory.store(ThreatSignature(agent_id=AID if ag == 0 else "b", vocabulary_hash=hstr(vh),
-                                                    structure_hash=hstr(sh), violation_types=(), threat_level=lv[l],
-                                                    effective_response=ac[a]))
+                immune.memory.store(sig_from(*mo[1][:5], types=(mo[1][5] if len(mo[1]) > 5 else ())))
                 row = [5]
             elif mo[0] == "forget":
                 if 0 <= mo[1] < len(immune.memory.signatures):
@@ -1032,11 +1233,9 @@ class C17(Check):
             elif mo[0] == "import":
                 # data in the export format, produced by the export path of a feed memory
                 feed = ImmuneMemory()
-                for ag, vh, sh, l, a, created in mo[1]:
-                    feed.signatures.append(ThreatSignature(
-                        agent_id=AID if ag == 0 else "b", vocabulary_hash=hstr(vh), structure_hash=hstr(sh),
-                        violation_types=(), threat_level=lv[l], effective_response=ac[a],
-                        created_at=CLOCK_BASE + timedelta(seconds=created)))
+                for it in mo[1]:
+                    feed.signatures.append(sig_from(*it[:5], types=(it[6] if len(it) > 6 else ()),
+                                                    created_at=CLOCK_BASE + timedelta(seconds=it[5])))
                 immune.memory.import_signatures(feed.export_signatures())
                 row = [11]
             elif mo[0] == "pruneold":
@@ -1051,6 +1250,18 @@ class C17(Check):
                                                      structure_hash=hstr(sh), violation_types=(), threat_level=lv[0],
                                                      effective_response=ac[0]))
                 row = [14]
+            elif mo[0] == "touchp":
+                ag, types = mo[1]
+                immune.memory.recall(sig_from(ag, 0, 0, 0, 0, types=types), partial=True)
+                row = [17]
+            elif mo[0] == "markupd":
+                immune.mark_agent_updated(AID)
+                row = [15]
+            elif mo[0] == "tolerate":
+                rec = immune.treg.get_record(AID)
+                if rec is not None:
+                    rec.add_tolerated_violation(VNAME[mo[1]])
+                row = [16]
             elif mo[0] == "setclean":
                 rec = immune.treg.records.get(AID)
                 if rec is not None:
@@ -1079,7 +1290,10 @@ class C17(Check):
                 row = row + [66] + (pep_obs(ev["impl_pep"]) if fed else [-5])
             obs.append(row + [77] + state_obs())
             trace.append(ev)
-        return obs, {"events": trace, "tol": case["tol"], "cut": cut}, cut
+        if any(changed for _, _, changed in acc_log):
+            # a read-only call changed the state: shown as an extra row, which the model cannot produce
+            obs.append([-777] + [i for i, (_, _, changed) in enumerate(acc_log) if changed])
+        return obs, {"events": trace, "tol": case["tol"], "cut": cut, "acc": acc_log}, cut
 
     # ------------------------------------------------------------------
     # model input
@@ -1127,6 +1341,10 @@ class C17(Check):
                 return f"(CCleanGe {cz(arg)})"
             if kind == "action":
                 return f"(CActionIs {AC[arg]})"
+            if kind == "recent":
+                return "CRecent"
+            if kind == "tolerated":
+                return "CTolerated"
             return f"(CViolGe {cz(arg)})"
 
         def cop(o):
@@ -1142,19 +1360,27 @@ class C17(Check):
             if k == "resetnc":
                 return "OResetNC"
             if k == "store":
-                ag, vh, sh, l, a = o[1]
-                return f"(OStore (mkSig {cz(ag)} {cz(vh)} {cz(sh)} {LV[l]} {AC[a]} 0 0))"
+                ag, vh, sh, l, a = o[1][:5]
+                ty = clist([cz(c) for c in (o[1][5] if len(o[1]) > 5 else ())])
+                return f"(OStore (mkSig {cz(ag)} {cz(vh)} {cz(sh)} {LV[l]} {AC[a]} 0 0 {ty}))"
             if k == "clearmem":
                 return "OClearMem"
             if k == "import":
-                return "(OImport " + clist([f"(mkSig {cz(ag)} {cz(vh)} {cz(sh)} {LV[l]} {AC[a]} {cz(cr)} 0)"
-                                            for ag, vh, sh, l, a, cr in o[1]]) + ")"
+                return "(OImport " + clist([f"(mkSig {cz(it[0])} {cz(it[1])} {cz(it[2])} {LV[it[3]]} {AC[it[4]]} {cz(it[5])} 0 "
+                                            + clist([cz(c) for c in (it[6] if len(it) > 6 else ())]) + ")"
+                                            for it in o[1]]) + ")"
             if k == "pruneold":
                 return f"(OPruneOld {cz(o[1])})"
             if k == "advance":
                 return f"(OAdvance {cz(o[1])})"
             if k == "touch":
                 return f"(OTouch {cz(o[1][0])} {cz(o[1][1])} {cz(o[1][2])})"
+            if k == "touchp":
+                return f"(OTouchPartial {cz(o[1][0])} {clist([cz(c) for c in o[1][1]])})"
+            if k == "markupd":
+                return "OMarkUpdated"
+            if k == "tolerate":
+                return f"(OTolerate {cz(o[1])})"
             if k == "forget":
                 return f"(OForget {cnat(o[1])})"
             if k == "setclean":
@@ -1165,7 +1391,7 @@ class C17(Check):
 
         mops, _, aops, table = self._resolve(case)
         names = {}
-        rules = clist([ctuple(LV[mx], ccond(c)) for mx, c in case["rules"]])
+        rules = clist([ctuple(LV[r[0]], ccond(r[1])) for r in case["rules"]])
         if case["tcell"]:
             t = case["tcell"]
             tc = f"(Some ({self._cprof(t['prof'])}, {cz(t['rep'])}, {cz(t['anergy'])}))"
@@ -1207,10 +1433,10 @@ class C17(Check):
         def far_off(l, a):
             return not (a == TABLE_ACTION[l] or a == TABLE_ACTION[l] - 1)
 
-        def ref_store(key, l, a, now, cap, ext=False):
+        def ref_store(key, l, a, now, cap, ext=False, types=()):
             if len(ref) >= cap and ref:
                 del ref[min(range(len(ref)), key=lambda k: ref[k]["acc"])]      # least recently accessed, first on ties
-            ref.append({"key": key, "l": l, "a": a, "created": now, "acc": (0, now), "ext": ext})
+            ref.append({"key": key, "l": l, "a": a, "created": now, "acc": (0, now), "ext": ext, "types": list(types)})
 
         def ref_match(key):
             return next((m for m in ref if m["key"] == key), None)
@@ -1304,24 +1530,31 @@ class C17(Check):
                     if m is not None:
                         m["acc"] = (0, now)
                 elif ev["level"] >= 2:
-                    ref_store(key, ev["level"], ev["action"], now, cap)
+                    ref_store(key, ev["level"], ev["action"], now, cap, types=ev["viol"])
             elif op == "store":
-                ag, vh, sh, l, a = ev["args"][0]
-                ref_store((ag, vh, sh), l, a, now, cap, ext=far_off(l, a))
+                ag, vh, sh, l, a = ev["args"][0][:5]
+                ref_store((ag, vh, sh), l, a, now, cap, ext=far_off(l, a), types=ev["args"][0][5] if len(ev["args"][0]) > 5 else ())
             elif op == "forget":
                 if 0 <= ev["args"][0] < len(ref):
                     del ref[ev["args"][0]]
             elif op == "clearmem":
                 del ref[:]
             elif op == "import":
-                for ag, vh, sh, l, a, created in ev["args"][0]:
+                for it in ev["args"][0]:
+                    ag, vh, sh, l, a, created = it[:6]
                     if len(ref) < cap:
-                        ref.append({"key": (ag, vh, sh), "l": l, "a": a, "created": created, "acc": (1, imported), "ext": far_off(l, a)})
+                        ref.append({"key": (ag, vh, sh), "l": l, "a": a, "created": created, "acc": (1, imported), "ext": far_off(l, a),
+                                    "types": list(it[6]) if len(it) > 6 else []})
                         imported += 1
             elif op == "pruneold":
                 ref[:] = [m for m in ref if m["created"] > now - ev["args"][0]]
             elif op == "touch":
                 m = ref_match(tuple(ev["args"][0]))
+                if m is not None:
+                    m["acc"] = (0, now)
+            elif op == "touchp":       # a partial recall: the first signature of that agent with a common violation type
+                ag, types = ev["args"][0]
+                m = next((m for m in ref if m["key"][0] == ag and set(m["types"]) & set(types)), None)
                 if m is not None:
                     m["acc"] = (0, now)
             if [list(m["key"]) + [m["l"], m["a"], m["created"]] for m in ref] != [m[:6] for m in ev["mem_after"]]:
@@ -1379,6 +1612,15 @@ class C17(Check):
                 ks.append("train=" + (SEL + ["raises"])[e["train"]])
             else:
                 ks.append("op=" + e["op"])
+        for c in case["rules"]:
+            if c[1][0] in ("recent", "tolerated"):
+                ks.append("rule-reads-record:" + c[1][0])
+        for kind, raised, changed in trace.get("acc", ()):
+            ks.append("accessor:" + kind)
+            for r in raised:
+                ks.append(f"accessor:{kind}:raised-{r}")
+            if changed:
+                ks.append(f"accessor:{kind}:CHANGED-STATE")
         return ks
 
     def shrink(self, case, pred):
